@@ -382,13 +382,14 @@ func runCall(cfg int, gas uint64, value *big.Int, to common.Address, code, input
 	setConfig(cfg)
 	w := newWorld(code, aux)
 	cur = w.rec
+	obs = &stepObs{}
 	e := w.evm(gas)
 	head := fmt.Sprintf("call %d %d %s %s %s %s ", cfg, gas, hexTok(value.Bytes()), ha(to), hexTok(input), ctxToken(gas))
 	_, isPre := vm.PrecompiledContracts[to]
 	var res string
 	run := func() string {
 		ret, left, _, err := e.Call(vm.AccountRef(origin), to, input, gas, value)
-		res = fmt.Sprintf("%s %d %s %d", statusOf(err, isPre), left, hexTok(ret), len(w.rec.tape))
+		res = fmt.Sprintf("%s %d %s %d s=%d h=%d d=%d", statusOf(err, isPre), left, hexTok(ret), len(w.rec.tape), obs.steps, obs.maxStack, obs.maxDepth)
 		return res
 	}
 	return head, run
@@ -398,11 +399,12 @@ func runCreate(cfg int, gas uint64, value *big.Int, init []byte, aux []byte) (st
 	setConfig(cfg)
 	w := newWorld(nil, aux)
 	cur = w.rec
+	obs = &stepObs{}
 	e := w.evm(gas)
 	head := fmt.Sprintf("create %d %d %s %s %s ", cfg, gas, hexTok(value.Bytes()), hexTok(init), ctxToken(gas))
 	run := func() string {
 		ret, addr, left, _, err := e.Create(vm.AccountRef(origin), init, gas, value)
-		return fmt.Sprintf("%s %d %s %s %d", statusOf(err, false), left, hexTok(ret), ha(addr), len(w.rec.tape))
+		return fmt.Sprintf("%s %d %s %s %d s=%d h=%d d=%d", statusOf(err, false), left, hexTok(ret), ha(addr), len(w.rec.tape), obs.steps, obs.maxStack, obs.maxDepth)
 	}
 	return head, run
 }
